@@ -1890,6 +1890,10 @@ class Interval(Node):
             unit = "WEEK"
 
         else:
+            microseconds = getattr(self, "microseconds", 0)
+            if ctx.dialect == Dialects.MYSQL and self.smallest == "MICROSECOND":
+                # MySQL reads the last field of an .._MICROSECOND literal left-justified ('1.5' is 1 s 500000 us)
+                microseconds = "{:06d}".format(microseconds)
             # Create the whole expression but trim out the unnecessary fields
             expr = "{years}-{months}-{days} {hours}:{minutes}:{seconds}.{microseconds}".format(
                 years=getattr(self, "years", 0),
@@ -1898,7 +1902,7 @@ class Interval(Node):
                 hours=getattr(self, "hours", 0),
                 minutes=getattr(self, "minutes", 0),
                 seconds=getattr(self, "seconds", 0),
-                microseconds=getattr(self, "microseconds", 0),
+                microseconds=microseconds,
             )
             expr = self.trim_pattern.sub("", expr)
             if self.is_negative:
